@@ -340,9 +340,16 @@ def r3(R, m):
         loops = [n for n in ast.walk(fn) if isinstance(n, ast.For) and pyfacts.resolved_src(fn, n.iter, 3, keep=params).replace(" ", "") == "%s.group" % grp]
         R.shape(len(loops) == 1, "C16.R3", REL, name, "the loop over %s.group" % grp)
         lp = loops[0]
-        R.check(not any(isinstance(x, (ast.Break, ast.Return)) for x in ast.walk(lp)) and not any(isinstance(x, ast.Continue) for x in ast.walk(lp)),
-                "C16.R3", REL, lp.lineno, name, "whole group visited (no break/continue/return)", "some operators are skipped")
         cfg = pyfacts.PyCFG(fn)
+        cmp_all = [c for c in ast.walk(lp) if isinstance(c, ast.Compare)]
+        # a 'continue' that only skips the update (it is taken on the outcome of the keep test itself) visits the operator all the same
+        conts = [x for x in ast.walk(lp) if isinstance(x, ast.Continue)]
+        inloop = set(id(x) for x in ast.walk(lp))
+        harmless = len(cmp_all) == 1 and all(
+            all(any(y is cmp_all[0] for y in ast.walk(t)) for t, _pol in cfg.guards(cfg.node_of(x)) if id(t) in inloop) and
+            any(id(t) in inloop for t, _pol in cfg.guards(cfg.node_of(x))) for x in conts)
+        R.check(not any(isinstance(x, (ast.Break, ast.Return)) for x in ast.walk(lp)) and (not conts or harmless),
+                "C16.R3", REL, lp.lineno, name, "whole group visited (no break/continue/return)", "some operators are skipped")
         head = cfg.node_of(lp)
         early = [r for r in ast.walk(fn) if isinstance(r, ast.Return) and not cfg.dominates(head, cfg.node_of(r))]
         R.check(not early, "C16.R3", REL, early[0].lineno if early else fn.lineno, name, "every return is reached through the loop over the group",
@@ -353,9 +360,29 @@ def r3(R, m):
                 "candidate = op(o, %s)" % arg0, "the operator is applied to something other than the input (e.g. the running best): the orbit is not enumerated")
         cmpn = [c for c in ast.walk(lp) if isinstance(c, ast.Compare)]
         R.shape(len(cmpn) == 1 and len(cmpn[0].ops) == 1, "C16.R3", REL, name, "the single keep test inside the loop")
-        strict = isinstance(cmpn[0].ops[0], ast.Gt) or isinstance(cmpn[0].ops[0], ast.Lt)
+        # the operator under which the running best is replaced: the comparison with the polarity it has on the way to the update
+        # ('if not (a > b): continue' keeps under a > b as well)
+        eff = type(cmpn[0].ops[0])
+        _NEG = {ast.Gt: ast.LtE, ast.Lt: ast.GtE, ast.GtE: ast.Lt, ast.LtE: ast.Gt, ast.Eq: ast.NotEq, ast.NotEq: ast.Eq}
+        upd = [a_ for a_ in ast.walk(lp) if isinstance(a_, ast.Assign) and len(a_.targets) == 1 and isinstance(a_.targets[0], ast.Name)
+               and any(y is opc[0] or (isinstance(y, ast.Name) and False) for y in ast.walk(a_.value))]
+        keepst = None
+        for a_ in ast.walk(lp):
+            if isinstance(a_, ast.Assign) and cfg.node_of(a_) is not None and any(any(y is cmpn[0] for y in ast.walk(t)) for t, _p in cfg.guards(cfg.node_of(a_))):
+                keepst = a_
+                break
+        # (find_uniq_hkls keeps through np.where(mask, ...): no branch, the comparison is the mask as written)
+        for t, pol in (cfg.guards(cfg.node_of(keepst)) if keepst is not None else []):
+            if any(y is cmpn[0] for y in ast.walk(t)):
+                nneg, cur = 0, t
+                while isinstance(cur, ast.UnaryOp) and isinstance(cur.op, ast.Not):
+                    nneg, cur = nneg + 1, cur.operand
+                R.shape(cur is cmpn[0], "C16.R3", REL, name, "a keep test that is the comparison itself (possibly negated)")
+                if (nneg % 2 == 1) == pol:
+                    eff = _NEG.get(eff, eff)
+        strict = eff in (ast.Gt, ast.Lt)
         R.check(strict, "C16.R3", REL, lp.lineno, name, "keep test %s" % [src(c) for c in cmpn], "the keep test must be a strict '>' against the best so far")
-        new_side, old_side = (cmpn[0].left, cmpn[0].comparators[0]) if isinstance(cmpn[0].ops[0], (ast.Gt, ast.GtE)) else (cmpn[0].comparators[0], cmpn[0].left)
+        new_side, old_side = (cmpn[0].left, cmpn[0].comparators[0]) if eff in (ast.Gt, ast.GtE) else (cmpn[0].comparators[0], cmpn[0].left)
         # the returned name is the running best; it starts as the input
         rets = [r for r in ast.walk(fn) if isinstance(r, ast.Return) and r.value is not None]
         R.shape(len(rets) == 1, "C16.R3", REL, name, "the single return")
